@@ -173,6 +173,7 @@ class World:
         addresses=("10.0.0.1",),
         client: bool = False,
         naddr: int = 1,
+        debug: bool = False,
     ) -> None:
         import aiohappyeyeballs
 
@@ -217,7 +218,8 @@ class World:
         )
         self.conn = None
         if not client:
-            self.conn = APIConnection(self.params, self._on_stop, False, None)
+            # debug: the library's debug-logging paths are on (what it sends, delivers and decides must not depend on them)
+            self.conn = APIConnection(self.params, self._on_stop, bool(debug), None)
         self.closed = False
 
     # ------------------------------------------------------------ patches
